@@ -303,6 +303,8 @@ def run(chk):
                     chk.inconclusive("R3", inst, str(x), short(f["loc"]))
             else:
                 chk.violated("R3", inst, "a strto* call is not enclosed by a try with a non-rethrowing catch(...): arbitrary byte strings make it throw", short(f["loc"]))
+    if not any(o["rule"] == "R5" for o in chk.obs):
+        chk.holds("R5", "all library bodies", "no cast to an enumeration type and no non-constant signed integer arithmetic in any instantiated body (controls matched: see R0)", "")
     for k, v in controls.items():
         (chk.holds if v > 0 else chk.inconclusive)("R0", "control:" + k, "scanner matched the control construct %d time(s)" % v, "driver")
     chk.floor("external call sites examined", n_calls, 9000)
